@@ -97,6 +97,7 @@ func refSrc(d *tape, format string) gen.Src {
 		s.DictCode = pickOf[byte](d, 0, 0, 1, 2, 5)
 		s.Sizes = d.pick(4)
 		s.ExtraPad = pickOf(d, 0, 0, 1, 3)
+		s.Mix = s.NBlocks >= 2 && d.pick(3) == 0
 	case "lzma2":
 		s.NChunks = d.pick(7)
 		s.DictCode = pickOf[byte](d, 0, 0, 1, 2, 5)
